@@ -30,7 +30,7 @@ ASSUMPTIONS = [
 REQUIRED_MONITORS = ['runs:forked', 'runs:real_crosscheck', 'log:bodies_observed', 'listing:checked', 'verbose:checked',
                      'failfast:checked']
 REQUIRED_CLASSES = ['mode=all', 'mode=tagged', 'mode=list', 'spelling=-1', 'spelling=--tagged', 'spelling=-0',
-                    'spelling=--istagged', 'spelling=both-glued', 'spelling=both-separate', 'spelling=both-long', 'cluster=1', 'classes_named=1', 'write_flag=1', 'inheritance=1']
+                    'spelling=--istagged', 'spelling=both-glued', 'spelling=both-separate', 'spelling=both-long', 'spelling=both-mixed', 'cluster=1', 'classes_named=1', 'write_flag=1', 'inheritance=1']
 
 HEADER = '''import os, sys, unittest
 from tdda.referencetest import ReferenceTestCase, tag
@@ -88,8 +88,8 @@ def gen_module(rng):
 
 def gen_argv(rng, classes, i):
     modes = [('all', None), ('tagged', '-1'), ('tagged', '--tagged'), ('list', '-0'), ('list', '--istagged'),
-             ('list', 'both-glued'), ('list', 'both-separate'), ('list', 'both-long')]
-    mode, flag = modes[i % 8]
+             ('list', 'both-glued'), ('list', 'both-separate'), ('list', 'both-long'), ('list', 'both-mixed')]
+    mode, flag = modes[i % 9]
     both = None
     if flag and flag.startswith('both'):
         # tagged and list-tagged together: listing wins (no test may run)
@@ -130,6 +130,10 @@ def gen_argv(rng, classes, i):
         longs.append(flag)
     if both == 'both-long':
         longs += ['--tagged', '--istagged']
+    if both == 'both-mixed':
+        short, long_ = rng.choice([('-0', '--tagged'), ('-1', '--istagged')])
+        args.insert(rng.randrange(len(args) + 1), short)
+        longs.append(long_)
     if write and write != 'W' and write[0] == '--write-all':
         longs.append('--write-all')
     rng.shuffle(longs)
